@@ -296,38 +296,41 @@ func parseIntPrefix(s string) (string, int64, bool) {
 // align walks the process text against the source S (= the parsed part of the input) in which the byte
 // ranges `groups` (sorted, disjoint) are the rolls: everything outside them must be S verbatim (modulo the
 // TrimSpace applied to the whole text), each of them must have become `value` or `value[annotation]`.
-func align(text, S string, groups []gspan) ([]galigned, *alignErr) {
+func align(text, S string, groups []gspan) ([]galigned, string, *alignErr) {
 	if len(groups) == 0 {
 		if text == "" || text == strings.TrimSpace(S) {
-			return nil, nil
+			return nil, text, nil
 		}
-		return nil, &alignErr{"align:no-terms", fmt.Sprintf("text %q for a source without terms %q", text, S)}
+		return nil, "", &alignErr{"align:no-terms", fmt.Sprintf("text %q for a source without terms %q", text, S)}
 	}
 	var out []galigned
-	i := 0 // in text
-	j := 0 // in S
+	var bare strings.Builder // the text without the annotations
+	i := 0                   // in text
+	j := 0                   // in S
 	for gi, g := range groups {
 		if g.b < j || g.e < g.b || g.e > len(S) {
-			return nil, &alignErr{"align:span-range", fmt.Sprintf("group %d [%d,%d) outside the parsed source of length %d (previous end %d)", gi, g.b, g.e, len(S), j)}
+			return nil, "", &alignErr{"align:span-range", fmt.Sprintf("group %d [%d,%d) outside the parsed source of length %d (previous end %d)", gi, g.b, g.e, len(S), j)}
 		}
 		gap := S[j:g.b]
 		if gi == 0 {
 			gap = strings.TrimLeftFunc(gap, unicode.IsSpace)
 		}
 		if !strings.HasPrefix(text[i:], gap) {
-			return nil, &alignErr{"align:gap", fmt.Sprintf("before term %d (%q) the text has %q, the source has %q", gi, S[g.b:g.e], clipS(text[i:], len(gap)+12), gap)}
+			return nil, "", &alignErr{"align:gap", fmt.Sprintf("before term %d (%q) the text has %q, the source has %q", gi, S[g.b:g.e], clipS(text[i:], len(gap)+12), gap)}
 		}
 		i += len(gap)
+		bare.WriteString(gap)
 		vs, v, ok := parseIntPrefix(text[i:])
 		if !ok {
-			return nil, &alignErr{"align:value", fmt.Sprintf("no integer where term %d (%q) should show its value: %q", gi, S[g.b:g.e], clipS(text[i:], 24))}
+			return nil, "", &alignErr{"align:value", fmt.Sprintf("no integer where term %d (%q) should show its value: %q", gi, S[g.b:g.e], clipS(text[i:], 24))}
 		}
 		i += len(vs)
+		bare.WriteString(vs)
 		a := galigned{valStr: vs, val: v}
 		if i < len(text) && text[i] == '[' {
 			k, ok := scanBracket(text, i)
 			if !ok {
-				return nil, &alignErr{"align:bracket", fmt.Sprintf("unbalanced annotation for term %d: %q", gi, clipS(text[i:], 60))}
+				return nil, "", &alignErr{"align:bracket", fmt.Sprintf("unbalanced annotation for term %d: %q", gi, clipS(text[i:], 60))}
 			}
 			a.ann = text[i:k]
 			i = k
@@ -337,9 +340,10 @@ func align(text, S string, groups []gspan) ([]galigned, *alignErr) {
 	}
 	tail := strings.TrimRightFunc(S[j:], unicode.IsSpace)
 	if text[i:] != tail {
-		return nil, &alignErr{"align:tail", fmt.Sprintf("after the last term the text has %q, the source has %q", clipS(text[i:], len(tail)+24), tail)}
+		return nil, "", &alignErr{"align:tail", fmt.Sprintf("after the last term the text has %q, the source has %q", clipS(text[i:], len(tail)+24), tail)}
 	}
-	return out, nil
+	bare.WriteString(tail)
+	return out, bare.String(), nil
 }
 
 func clipS(s string, n int) string {
